@@ -148,7 +148,58 @@ def run(ctx):
     recs = A.observations("c14-recursion")
     ctx.count("R-C14-BOUNDARY", len(recs))
     if not recs:
-        ctx.violation("R-C14-BOUNDARY", "done-recursion", where(an.push), "push_byte from Done does not re-enter push_byte on a reset decoder")
+        # no recursive call: compare behaviours instead -- from Done, push_byte(b) must have exactly the outcomes (result, final
+        # state as a function of b) that it has from the default state, and must have cleared the buffer
+        def canon(st_, v):
+            if isinstance(v, VInt):
+                c = st_.const_of(v.lin)
+                return c if c is not None else repr(v.lin)
+            if isinstance(v, VEnum):
+                c = st_.const_of(v.disc)
+                return (c, tuple(canon(st_, x) for x in v.pay.get(c, ()))) if c is not None else "?"
+            if isinstance(v, (VAgg, VArr)):
+                return tuple(canon(st_, x) for x in v.elems)
+            if isinstance(v, VOpq):
+                return "opq:" + str(v.tag)
+            return repr(v)
+
+        def outcome_set(obj_start, base, key):
+            st_ = base.copy()
+            root_ = ip.new_oid("self")
+            st_.mem[root_] = obj_start
+            st_.ghost["dec-self"] = root_
+            st_.ghost["dec-part"] = key
+            res = set()
+            cleared = True
+            for (s2, rv) in ip.run_root(an.push, {}, [VRef(root_, (), True)] + shared, st_):
+                for s3, label in classify_push(ip, s2, rv, an):
+                    sg = bsym.lin.single()
+                    vals = s3.values(sg[0])
+                    res.add((label, canon(s3, s3.mem[root_]), None if vals is None else (min(vals), max(vals), len(vals))))
+                    if key == "done" and s3.ghost.get("c14-cleared") is not True:
+                        cleared = False
+            return res, cleared
+        base = ip.new_state()
+        shared = ip.fresh_args(an.push, {}, base)[1:]
+        bsym = [a for a in shared if isinstance(a, VInt)][0]
+        inv = A.invariant(NOD)
+        ok = an.v_done in inv.parts
+        why_ = "no Done partition"
+        if ok:
+            st_done = base.copy()
+            obj_done = A.import_partition(st_done, inv.parts[an.v_done])
+            from_done, cleared = outcome_set(obj_done, st_done, "done")
+            st_fresh = base.copy()
+            for k_, v_ in dst.mem.items():
+                st_fresh.mem.setdefault(k_, v_)
+            from_fresh, _c = outcome_set(dobj, st_fresh, "fresh")
+            ok = bool(from_done) and from_done == from_fresh and cleared
+            why_ = "outcomes from Done %r differ from the outcomes of a fresh decoder %r%s" % (
+                sorted(from_done, key=str)[:3], sorted(from_fresh, key=str)[:3], "" if cleared else "; buffer not cleared")
+        ctx.oblig(ok)
+        if not ok:
+            ctx.violation("R-C14-BOUNDARY", "done-recursion", where(an.push),
+                          "from Done the byte must be processed exactly as by a fresh decoder (after a reset): " + why_)
     for r in recs:
         ctx.oblig(r["ok"])
         if not r["ok"]:
